@@ -132,6 +132,9 @@ def tamper_menu(R, rp, msg, recv_msg, others, quick_bits=False, quick_trunc=Fals
         out.append(("reencode", label + (R.p - P).to_bytes(R.esize, "big")))
     for name, m in others:
         out.append(("other:" + name, m))
+    import binascii, base64
+    out += [("text-encoding", label + binascii.hexlify(payload)), ("text-encoding", label + binascii.hexlify(payload).upper()),
+            ("text-encoding", label + base64.b64encode(payload)), ("text-encoding", binascii.hexlify(msg))]
     out.append(("reflect", recv_msg))
     out.append(("reflect", label + recv_msg[1:]))
     seen, ded = set(), []
@@ -325,9 +328,16 @@ def rdesc(spec):
 
 CONFIGS_AB = [(b"", b"", b""), (b"a", b"", b""), (b"b", b"", b""), (b"a\x00", b"", b""), (b"\x00a", b"", b""), (b"a" * 65, b"", b""),
               (b"a", b"x", b"y"), (b"a", b"y", b"x"), (b"a", b"x", b""), (b"a", b"", b"y"), (b"a", b"ab", b"c"), (b"a", b"a", b"bc"),
-              (b"a", b"xy", b""), (b"a" * 64 + b"b", b"", b"")]
+              (b"a", b"xy", b""), (b"a" * 64 + b"b", b"", b""),
+              # a long password and the values a "pre-hash long passwords" shortcut would confuse it with
+              (b"L" * 300, b"", b""), (__import__("hashlib").sha256(b"L" * 300).digest(), b"", b""),
+              (__import__("hashlib").sha256(b"L" * 300).hexdigest().encode(), b"", b""), (b"L" * 256, b"", b""), (b"L" * 65, b"", b""),
+              (__import__("hashlib").sha256(b"L" * 65).digest(), b"", b"")]
 CONFIGS_S = [(b"", b""), (b"a", b""), (b"b", b""), (b"a\x00", b""), (b"\x00a", b""), (b"a" * 65, b""), (b"a", b"x"), (b"a", b"y"),
-             (b"a", b"xy"), (b"a", b"x\x00"), (b"a", b"\x00x"), (b"a", b"X"), (b"A", b"x"), (b"a" * 64 + b"b", b"")]
+             (b"a", b"xy"), (b"a", b"x\x00"), (b"a", b"\x00x"), (b"a", b"X"), (b"A", b"x"), (b"a" * 64 + b"b", b""),
+             (b"L" * 300, b""), (__import__("hashlib").sha256(b"L" * 300).digest(), b""),
+             (__import__("hashlib").sha256(b"L" * 300).hexdigest().encode(), b""), (b"L" * 256, b""), (b"L" * 65, b""),
+             (__import__("hashlib").sha256(b"L" * 65).digest(), b"")]
 
 
 def _config_task(task):
